@@ -13,6 +13,7 @@ import Mappy.Model.Validator
 import Mappy.Model.Comments
 import Mappy.Model.Schema
 import Mappy.Gen.Patterns
+import Mappy.Model.Cli
 open Lean Mappy Mappy.Wire
 
 namespace Mappy.Driver
@@ -266,6 +267,16 @@ def errsOp (req : Json) : Except String Json := do
     let es := Schema.errs env 60 s inst []
     pure (.arr (es.map fun (p, k) => Json.arr #[encodePath p, .str (l2s k)]).toArray)
 
+/-! ### command line -/
+def cliOp (req : Json) : Except String Json := do
+  let outs ← (← getArr req "outcomes").mapM fun o =>
+    match o.getObjVal? "n" with
+    | .ok (.num n) => pure (Cli.Outcome.msgs n.mantissa.toNat)
+    | _ => pure Cli.Outcome.parseFail
+  pure (Json.mkObj [("status", .num (JsonNumber.fromNat (Cli.osStatus (Cli.exitCode outs)))),
+                    ("lines", .num (JsonNumber.fromNat (Cli.echoed outs))),
+                    ("ok", .num (JsonNumber.fromNat (Cli.validatedOk outs)))])
+
 def handle (op : String) (req : Json) : Except String Json := do
   match op with
   | "echo" => pure (ofJ (← getJ req "v"))
@@ -291,6 +302,7 @@ def handle (op : String) (req : Json) : Except String Json := do
   | "messages" => messagesOp req
   | "assign" => assignOp req
   | "errs" => errsOp req
+  | "cli" => cliOp req
   | "lowercase" => pure (ofJ (Validator.convertLowercase (← getJ req "v")))
   | "lower" => pure (Json.str (l2s (lower (← getStr req "s"))))
   | _ => throw s!"unknown op {op}"
